@@ -600,8 +600,10 @@ def obligations(tier):
                 nm = f'chform.rule.{rname}.n2.x{xs_[0]}'
                 obs.append(Obligation(nm, lambda cx, rname=rname, xs_=xs_: chrule_body(cx, rname, xs=xs_, nq=2), twin=(lambda cx, rname=rname, xs_=xs_: chrule_body(cx, rname, wrong=True, xs=xs_, nq=2)) if si == 0 else None, opts={'weight': 10, 'vc_timeout_ms': 120000}, desc=CHR_DESC))
 
-    # n = 3 is sharded over the measured qubit (each shard is a long serial exploration)
-    for n_, qf in ([(2, None)] if tier == 'quick' else [(2, None), (3, 0), (3, 1), (3, 2)]):
+    # n = 3 is not enumerable: _rowsum branches on every bit of both rows (Python-level `if` and int()), up to 16
+    # outcomes per qubit and row pair, 5 row pairs: more than 10^6 paths (three shards ran > 75 CPU-minutes each without
+    # finishing).  The claim is n = 2 in both tiers.
+    for n_, qf in [(2, None)]:
         obs.append(
             Obligation(
                 f'tableau.measure.n{n_}' + ('' if qf is None else f'.q{qf}'),
@@ -627,7 +629,7 @@ def main(tier, seed=0, replay=None, only=None, procs=None):
         'tableau_qubits': '<=2 (quick) / <=3 (thorough), all axis tuples',
         'exponent_box': [-4, 4],
         'act_on_gate_menu': 'X,Y,Z half-integer powers, H, CZ, CX, SWAP integer powers, S, ISWAP, shifted gates, PhasedXZ/PhasedX Cliffords, CY, YY, XX**0.5, ZZ**0.5, all 24 SingleQubitCliffordGate',
-        'measure': 'n = 2 (quick) / 2, 3 (thorough), every qubit, arbitrary valid tableau, both coin outcomes',
+        'measure': 'n = 2 (both tiers; n = 3 is not enumerable, see the comment at the obligation), every qubit, arbitrary valid tableau, both coin outcomes',
         'chform': 'reindex for 2 (quick: one swap and one 3-cycle, output basis states 0, 1, 4, 6) / all 6 permutations and all 8 output basis states (thorough) of 3 qubits from an arbitrary valid CH-form state',
         'chform_gates': '7 (quick) / 16 (thorough) gates (Paulis, H, S, sqrt X/Y and inverses, CZ, CX, SWAP, shifted gates, global phase) on an arbitrary valid 2-qubit CH state, all placements, every amplitude incl. global phase',
         'group': 'all 24 one-qubit Clifford elements and all 576 ordered pairs (solver-enumerated, exhaustive)',
